@@ -36,6 +36,12 @@ CHECKS = {
  "C13": ("fault_enumeration", "exhaustive single (thorough: double) deviation enumeration over every storage call of every flow (E3) on the real code",
          "Each of 17 flows is first run fault-free to count its storage calls; then for every call position and each of three error kinds the flow is re-run from a fresh clone with that call failing without effect (thorough: every pair of positions as well). An error must come without credentials / token / certificates / roots; a success must be reflected in storage; a node record created from a token implies the token record is gone; a failed call leaves every existing node record byte-identical.",
          "Storage calls are atomic (message-granular interface, no torn writes). Faults that turn a refusal into a durable success are not judged (the property allows a fully reflected result).", "6/C13", "E3"),
+ "C14": ("fault_enumeration", "bounded-exhaustive enumeration of hostile ClientHello shapes and raw inputs (E4) and of connection drops at every handshake step (E3) against the real listener",
+         "Each case (ALPN lists over the library prefixes with malformed / truncated / oversized / duplicated / reordered values, raw non-TLS bytes, honest handshakes cut after the k-th client write or read) is sent to a real InterceptingListener on a loopback socket, with and without a base TLS configuration; Accept runs under recover and must not panic, its error must be temporary, and an honest Dial on the same listener must authenticate afterwards; closing the base listener must give a non-temporary error.",
+         "Stalling peers are outside the quantifier. The application-supplied registration wrapper is length-guarded (the aead dependency's short-ciphertext panic is not attributed to the library).", "6/C14", "E4+E3"),
+ "C16": ("exploration", "bounded-exhaustive input product (E4) through real handshakes, judged on the connection object the application receives",
+         "7 client-state shapes x 8 extra-ALPN lists through the real Dial and through a hand-built client whose offered list is known exactly (plus forged state signatures): on every authenticated connection ClientState() must equal what was dialled, ClientNextProtos() must equal the offered list in order minus certificate-preference entries, and the returned slice must be a copy; forged state must never yield a connection.",
+         "Empty and absent state are identified. Oversized states that cannot authenticate are counted, not judged.", "6/C16", "E4"),
  "C19": ("model_checking", "explicit-state BFS of the real back ends against a map model (E1) + exhaustive schedule exploration of the in-memory back end under a controlled scheduler with porcupine linearizability checking (E2)",
          "Sequential: every operation sequence over 4 types x 2 ids x 2 values (plus refused operations) up to the stated depth / fixpoint on inmem, file and store-once, with a full load+list comparison after every transition. Concurrent: all interleavings (no preemption bound) of 2x2 and 3x1 thread programs colliding on one slot, on the real inmem code with sync replaced by scheduler-owned shims; each history must be linearizable w.r.t. the map model.",
          "Scheduling points are lock operations only (sequential consistency between them); data-race freedom is reported by the free-running -race companion, which is sampling. Shim fidelity to sync.RWMutex semantics is part of the trusted base.", "6/C19", "E1+E2+R"),
